@@ -56,7 +56,12 @@ def entailed(I, cond):
         return True
     if z3.is_false(cond):
         return False
-    return I.p.solver.check(z3.Not(cond)) == z3.unsat
+    I.p.solver.push()
+    try:
+        I.p.solver.add(z3.Not(cond))
+        return I.p.solver.check() == z3.unsat
+    finally:
+        I.p.solver.pop()
 
 
 def require_kind(I, t, test, what):
@@ -549,6 +554,7 @@ def merged_eval(I, elem, xs, gen, elt_expr, env, module, site, bound=None):
     outs = explore(run, I.ctx)
     body, keep = None, None
     any_skip = False
+    raises = []
     for p, (kind, out) in outs:
         parent.obligations.extend(p.obligations)
         parent.maps_used.update(p.maps_used)
@@ -556,9 +562,11 @@ def merged_eval(I, elem, xs, gen, elt_expr, env, module, site, bound=None):
             continue
         if kind == "unsupported":
             raise Unsupported(out)
-        if kind == "raise":
-            raise Unsupported(f"comprehension element may raise {out.exc_class.__name__} at {site}")
         cond = z3.And(*p.pc[base:]) if len(p.pc) > base else z3.BoolVal(True)
+        if kind == "raise":
+            # the comprehension raises iff some element raises (the first one); recorded as a flag map
+            raises.append((cond, out))
+            continue
         tag, value = out
         if tag == "skip":
             any_skip = True
@@ -582,6 +590,31 @@ def merged_eval(I, elem, xs, gen, elt_expr, env, module, site, bound=None):
         keep = None
     elif keep is None:
         keep = z3.BoolVal(True)
+    if raises:
+        classes = {r[1].exc_class for r in raises}
+        if len(classes) != 1:
+            raise Unsupported(f"comprehension element may raise several exception classes at {site}")
+        rcond = _simpl(z3.Or(*[c for c, _ in raises]))
+        flag_key = (site + "#raises", z3.substitute(rcond, (elem, z3.Const("__elem__", V.Val))).sexpr(), None)
+        ent = _MAP_CACHE.get(flag_key)
+        canon = z3.Const("__elem__", V.Val)
+        if ent is None:
+            _MAP_COUNTER[0] += 1
+            fname = f"any!{_MAP_COUNTER[0]}!{site}#raises"
+            f = z3.RecFunction(fname, V.VL, z3.BoolSort())
+            l = z3.FreshConst(V.VL, "l")
+            z3.RecAddDefinition(f, [l], z3.If(V.is_VNil(l), z3.BoolVal(False), z3.Or(z3.substitute(rcond, (elem, V.hd(l))), f(V.tl(l)))))
+            ent = dict(var=canon, body=V.VBool(z3.substitute(rcond, (elem, canon))), keep=None, fn=f, site=site + "#raises",
+                       name=fname, kind="any")
+            _MAP_CACHE[flag_key] = ent
+            _MAP_BY_NAME[fname] = ent
+        m = dict(ent)
+        m["xs"] = xs
+        parent.maps_used[ent["name"]] = m
+        if parent.branch(ent["fn"](xs), f"comprehension-raises@{site}"):
+            cls = next(iter(classes))
+            raise PyRaise(Obj(cls, {"args": (SV(parent.fresh("excarg")),)}) if not isinstance(raises[0][1].exc, Obj) else
+                          Obj(cls, {k: SV(parent.fresh("excattr")) for k in raises[0][1].exc.attrs}))
     return _simpl(body), (None if keep is None else _simpl(keep))
 
 
@@ -611,14 +644,178 @@ def elem_facts(I, xs, elem):
     return facts
 
 
+class SymEnumerate:
+    """enumerate(<symbolic list>, start)"""
+
+    def __init__(self, xs, start):
+        self.xs, self.start = xs, start
+
+
+def _mutated_paths(body):
+    """access paths (name, attr, attr, ...) that the loop body may rebind or mutate in place (syntactic)."""
+    paths = set()
+
+    def path_of(e):
+        parts = []
+        while isinstance(e, ast.Attribute):
+            parts.append(e.attr)
+            e = e.value
+        if isinstance(e, ast.Subscript):
+            return path_of(e.value)
+        if isinstance(e, ast.Name):
+            return tuple([e.id] + parts[::-1])
+        return None
+
+    def target(t):
+        if isinstance(t, ast.Name):
+            paths.add((t.id,))
+        elif isinstance(t, (ast.Tuple, ast.List)):
+            for x in t.elts:
+                target(x)
+        elif isinstance(t, (ast.Attribute, ast.Subscript)):
+            pth = path_of(t if isinstance(t, ast.Attribute) else t.value)
+            if pth:
+                paths.add(pth)
+        elif isinstance(t, ast.Starred):
+            target(t.value)
+    for node in ast.walk(ast.Module(body=list(body), type_ignores=[])):
+        if isinstance(node, ast.Assign):
+            for t in node.targets:
+                target(t)
+        elif isinstance(node, (ast.AugAssign, ast.AnnAssign)):
+            target(node.target)
+        elif isinstance(node, (ast.For, ast.AsyncFor)):
+            target(node.target)
+        elif isinstance(node, ast.NamedExpr):
+            target(node.target)
+        elif isinstance(node, ast.Call) and isinstance(node.func, ast.Attribute) and node.func.attr in MUTATING:
+            pth = path_of(node.func.value)
+            if pth:
+                paths.add(pth)
+    return paths
+
+
+def _havoc(I, env, pth, label):
+    """replace the value at an access path by an arbitrary value of the same container kind"""
+    def fresh_like(cur):
+        cur = norm(cur)
+        if isinstance(cur, (list, MList)):
+            t = I.p.fresh(label)
+            I.p.assume(V.is_VList(t))
+            return MList(t)
+        if isinstance(cur, (dict, MDict)):
+            t = I.p.fresh(label)
+            I.p.assume(V.is_VDict(t))
+            return MDict(t)
+        if isinstance(cur, Obj):
+            return cur          # object identity kept; its attributes are havocked through their own paths
+        return SV(I.p.fresh(label))
+    name = pth[0]
+    if not env.has(name):
+        return
+    if len(pth) == 1:
+        env.assign(name, fresh_like(env.lookup(name)))
+        return
+    o = env.lookup(name)
+    for a in pth[1:-1]:
+        if not isinstance(o, Obj) or a not in o.attrs:
+            return
+        o = o.attrs[a]
+    if isinstance(o, Obj) and pth[-1] in o.attrs:
+        o.attrs[pth[-1]] = fresh_like(o.attrs[pth[-1]])
+
+
 def symbolic_for(I, st, it, env, module):
-    xs = _seq_term(I, it) if isinstance(it, (SV, MList)) else None
+    """`for x in <symbolic sequence>`: cut at the loop head.
+       init:   invariant holds for rest = xs                                   (obligation inv<k>.init)
+       step:   arbitrary iteration: modified state havocked, invariant assumed for rest = x::rest', body executed
+               once on an arbitrary element x satisfying the element facts, invariant checked for rest'  (inv<k>.step)
+       exit:   modified state havocked, invariant assumed for rest = nil, execution continues after the loop.
+    Without an invariant (from the contract) the path is marked imprecise: a failing postcondition on it is only
+    reported when the native replay confirms it."""
+    from .interp import _Break, _Continue
+    index_start = None
+    if isinstance(it, SymEnumerate):
+        index_start = it.start
+        xs = it.xs
+    elif isinstance(it, Obj) and hasattr(it.cls, "__pyvc_for__"):
+        return it.cls.__pyvc_for__(I, st, it, env, module)
+    else:
+        xs = _seq_term(I, it) if isinstance(it, (SV, MList)) else None
     if xs is None:
         return False
-    h = getattr(I.ctx, "loop_handler", None)
-    if h is not None:
-        return h(I, st, xs, env, module)
-    raise Unsupported(f"for loop over a symbolic sequence at line {st.lineno} needs a loop contract")
+    fnq = env.lookup("__fn__").qualname if env.has("__fn__") else "?"
+    loops = I.ctx.__dict__.setdefault("loop_ordinals", {})
+    key = (fnq, st.lineno)
+    specs = getattr(I.ctx, "loop_specs", {}) or {}
+    spec = specs.get((fnq, st.lineno)) or specs.get(fnq)
+    label = f"inv@{fnq.split('.')[-1]}:{st.lineno}"
+    mod = sorted(_mutated_paths(st.body) - {(n,) for n in _target_names(st.target)})
+
+    def state():
+        out = {}
+        for pth in mod:
+            try:
+                v = env.lookup(pth[0])
+                for a in pth[1:]:
+                    v = v.attrs[a] if isinstance(v, Obj) else None
+                if v is not None:
+                    out[".".join(pth)] = lower(v)
+            except (KeyError, V.LowerError, AttributeError):
+                pass
+        return out
+    if spec is not None:
+        I.p.oblige(f"{label}.init", spec(xs, xs, state(), I), "inv-init")
+    I.p.counter += 1
+    which = z3.Bool(f"loop!{I.p.counter}!iteration")
+    if I.p.branch(which, f"loop@{st.lineno}:arbitrary-iteration"):
+        x = I.p.fresh("elem")
+        rest1 = I.p.fresh("rest", V.VL)
+        for f in elem_facts(I, xs, x):
+            I.p.assume(f)
+        I.ctx.__dict__.setdefault("elem_parents", {})[x.get_id()] = xs
+        I.ctx.__dict__.setdefault("keepalive", []).append(x)
+        for pth in mod:
+            _havoc(I, env, pth, "loopvar")
+        rest = V.VCons(x, rest1)
+        if spec is not None:
+            I.p.assume(spec(rest, xs, state(), I))
+        else:
+            I.p.imprecise = True
+        if index_start is not None:
+            idx = SV(V.VInt(V.vi(lower(index_start)) + V.vl_len(xs) - V.vl_len(rest)))
+            I.assign_target(st.target, (idx, SV(x)), env, module)
+        else:
+            I.assign_target(st.target, SV(x), env, module)
+        try:
+            I.exec_block(st.body, env, module)
+        except _Continue:
+            pass
+        except _Break:
+            I.p.imprecise = True
+            return True          # state after `break` is the state of this iteration
+        if spec is not None:
+            I.p.oblige(f"{label}.step", spec(rest1, xs, state(), I), "inv-step")
+        raise PathAbort()
+    for pth in mod:
+        _havoc(I, env, pth, "loopout")
+    if spec is not None:
+        I.p.assume(spec(V.VNil, xs, state(), I))
+    else:
+        I.p.imprecise = True
+    I.exec_block(st.orelse, env, module)
+    return True
+
+
+def _target_names(t):
+    if isinstance(t, ast.Name):
+        return [t.id]
+    if isinstance(t, (ast.Tuple, ast.List)):
+        out = []
+        for x in t.elts:
+            out.extend(_target_names(x))
+        return out
+    return []
 
 
 # --------------------------------------------------------------------------- symbolic methods
@@ -1157,7 +1354,8 @@ def _enumerate(I, args, kwargs):
     if isinstance(xs, (SV, MList)):
         items = _concrete_list_items(_simpl(lower(xs)))
         if items is None:
-            raise Unsupported("enumerate over symbolic sequence")
+            seq = _seq_term(I, xs)
+            return SymEnumerate(seq, args[1] if len(args) > 1 else kwargs.get("start", 0))
         xs = [SV(i) for i in items]
     return list(enumerate(I.iterate(xs), *args[1:]))
 
